@@ -1,9 +1,10 @@
-import SqlProofs.DelimR.AdHocBase
+import SqlProofs.DelimChild.Reindent.AdHocBase
 /-!
-# SqlProofs.DelimR.Trig — a delimiter leaf triggers none of the loop passes
+# SqlProofs.DelimChild.Reindent.Trig — a delimiter leaf triggers none of the loop passes
 -/
 namespace Sql
-namespace DC
+namespace DCR
+open DC
 
 variable {u : Text → Text}
 
@@ -88,5 +89,5 @@ theorem ws_trig_align {x : Node} (hw : x.isWhitespace = true) :
   | grp _ _ => simp [Node.isWhitespace] at hw
   | tok _ _ => simp [imt, Node.isInstAny, Node.isInst]
 
-end DC
+end DCR
 end Sql
